@@ -28,9 +28,13 @@ Prec(op) == CASE op \in {"and", "or", "in", "not in"} -> 35 [] op \in CmpOps -> 
               [] op \in {"*", "/", "//", "%"} -> 60 [] op = "**" -> 70
 PrecOf(e) == IF e.k = "bin" THEN Prec(e.op) ELSE IF e.k = "un" THEN (IF e.op = "not" THEN 45 ELSE 65) ELSE 100
 \* may `e` stand on that side of `op` without parentheses?
-OkL(op, e) == ~(PrecOf(e) < Prec(op) \/ (PrecOf(e) = Prec(op) /\ op = "**"))
-OkR(op, e) == ~(PrecOf(e) < Prec(op) \/ (PrecOf(e) = Prec(op) /\ op # "**"))
-OkU(op, e) == ~(PrecOf(e) < (IF op = "not" THEN 45 ELSE 65))
+\* word operators are never mixed (their relative order is not something a generated program may depend on)
+BoolGroup == {"and", "or", "in", "not in"}
+Mixed(op, e) == (e.k = "bin" /\ e.op # op /\ (op \in BoolGroup \/ e.op \in BoolGroup) /\ Prec(e.op) <= Prec(op) + 5 /\ Prec(op) <= 40)
+                \/ (e.k = "un" /\ e.op = "not")
+OkL(op, e) == ~(Mixed(op, e) \/ PrecOf(e) < Prec(op) \/ (PrecOf(e) = Prec(op) /\ op = "**"))
+OkR(op, e) == ~(Mixed(op, e) \/ PrecOf(e) < Prec(op) \/ (PrecOf(e) = Prec(op) /\ op # "**"))
+OkU(op, e) == e.k \notin {"bin", "un"}
 
 AllOps == (ArithOps \ {"**"}) \cup CmpOps \cup {"and", "or", "in", "not in"}
 Leaves == {EInt(0), EInt(2), EInt(3), EId("CI"), EId("CN"), EFloat(3, 1), EId("CF"), EId("CS"), EId("CT"),
